@@ -21,6 +21,9 @@ pub struct SrcCase {
     /// budgets to run under (each must give the same result); empty = [1000]
     #[serde(default)]
     pub budgets: Vec<u32>,
+    /// added to a failure's features as `tag:<t>` (lets a known-finding signature name its probe)
+    #[serde(default)]
+    pub tags: Vec<String>,
 }
 
 fn default_main() -> String {
@@ -43,9 +46,18 @@ impl Prop for SrcProp {
         0
     }
     fn strategy(&self, _tier: Tier, _f: &Findings) -> BoxedStrategy<Self::Case> {
-        Just(SrcCase { files: single("0"), main: default_main(), stdout: None, end: "done".into(), budgets: vec![] }).boxed()
+        Just(SrcCase { files: single("0"), main: default_main(), stdout: None, end: "done".into(), budgets: vec![], tags: vec![] }).boxed()
     }
     fn judge(&self, c: &Self::Case, env: &mut Env) -> Verdict {
+        match self.judge_inner(c, env) {
+            Verdict::Fail(f) => Verdict::Fail(f.feats(c.tags.iter().map(|t| format!("tag:{t}")))),
+            other => other,
+        }
+    }
+}
+
+impl SrcProp {
+    fn judge_inner(&self, c: &SrcCase, env: &mut Env) -> Verdict {
         let mut st = CaseStats::one();
         st.nt(&c.files);
         st.sample = Some(json!({"src": c.files[0].text, "expect_end": c.end}));
